@@ -2,16 +2,16 @@
 SPECIFICATION Spec
 CONSTANTS
   ConnKeys = {"k1"}
-  FailKeys = {}
+  FailKeys = {"f1"}
   Msgs <- McNoMsgs
   MaxMsg = 4
   EventAfter = 1
   ClearAfter = 2
   MaxCount = 1
-  MaxHttp = 0
+  MaxHttp = 1
   MaxTcp = 0
   Ticks = FALSE
-  EnvStateModules <- McTwo
+  EnvStateModules <- McOneMod
   EnvMsgModules <- McNone
   IoFaults = FALSE
   MaxCrash = 0
@@ -19,6 +19,6 @@ CONSTANTS
   TopN = 1
 INVARIANTS TypeOK FileNeverHalfWritten OverallStatusFunction CountsAreAdds MessageBounded ExtensionTopN
 PROPERTIES FileStaysPresent QuiescentSnapshot CountsMonotoneBetweenClears ClearEmptiesBoth PublishedCountsMonotone
-  EventCarriesPublishedStatus EventOnlyWhenDue EventWhenDue ClearOnlyWhenDue ClearWhenDue FieldwiseSnapshot
+  EventCarriesPublishedStatus MonitorTruthful PublishesEveryIteration EventOnlyWhenDue EventWhenDue ClearOnlyWhenDue ClearWhenDue FieldwiseSnapshot
 CONSTRAINT McFewInstants
 CHECK_DEADLOCK TRUE
